@@ -51,6 +51,29 @@ def header_last_is_list(rng):
     return enc.rlp_encode(f)
 
 
+def deep_field_header(rng, depth=600):
+    """A 20-field header one of whose fields is a list nested `depth` levels deep (decodable RLP)."""
+    f = enc.header_fields(rng, 20, cb_full=bytes(100), cb_split=64)
+    x = b"\x01"
+    inner = b"\xc1\x01"
+    for _ in range(depth):
+        if len(inner) <= 55:
+            inner = bytes([0xc0 + len(inner)]) + inner
+        else:
+            lb = len(inner).to_bytes((len(inner).bit_length() + 7) // 8, "big")
+            inner = bytes([0xf7 + len(lb)]) + lb + inner
+    items = [enc.rlp_encode(i) for i in f]
+    items[12] = inner
+    payload = b"".join(items)
+    return enc.rlp_len_prefix(len(payload), 0xc0) + payload
+
+
+def truncated_receipt(rng, keep):
+    """An RLP list whose header declares more bytes than follow; `keep` bytes are kept."""
+    full = reqs.receipt(rng, size=400)
+    return full[:keep]
+
+
 def noncanonical_rlp(rng):
     f = enc.header_fields(rng, 19, cb_full=bytes(100), cb_split=0)
     raw = enc.rlp_encode(f)
@@ -148,6 +171,13 @@ CLASSES = {
     "sign_auth_list": lambda r: J(_sign_tx(r, auth=[1, 2])),
     "sign_receipt_nonhex": lambda r: J(_sign_tx(r, auth_receipt="zz")),
     "sign_receipt_huge": lambda r: J(_sign_tx(r, auth_receipt=(b"\xb9\xff\xff" + bytes(65535)).hex())),
+    "sign_receipt_truncated": lambda r: J(_sign_tx(r, auth_receipt=truncated_receipt(r, r.randint(5, 300)).hex())),
+    "sign_receipt_truncated_80": lambda r: J(_sign_tx(r, auth_receipt=truncated_receipt(r, 80).hex())),
+    "sign_receipt_truncated_160": lambda r: J(_sign_tx(r, auth_receipt=truncated_receipt(r, 160).hex())),
+    "sign_receipt_truncated_255": lambda r: J(_sign_tx(r, auth_receipt=truncated_receipt(r, 255).hex())),
+    "sign_receipt_trailing": lambda r: J(_sign_tx(r, auth_receipt=(reqs.receipt(r) + bytes(7)).hex())),
+    "sign_receipt_not_rlp_list": lambda r: J(_sign_tx(r, auth_receipt="83616263")),
+    "sign_receipt_single_byte": lambda r: J(_sign_tx(r, auth_receipt="00")),
     "sign_proof_256_nodes": lambda r: J(_sign_tx(r, auth_receipt_merkle_proof=["ab"] * 256)),
     "sign_proof_node_256_bytes": lambda r: J(_sign_tx(r, auth_receipt_merkle_proof=["ab" * 256])),
     "sign_proof_nested": lambda r: J(_sign_tx(r, auth_receipt_merkle_proof=[["ab"]])),
@@ -165,6 +195,13 @@ CLASSES = {
                                    "blocks": [big_header(r, 70000).hex()], "brothers": [[]]}),
     "adv_block_last_field_list": lambda r: J({"command": "advanceBlockchain", "version": 5,
                                               "blocks": [header_last_is_list(r).hex()], "brothers": [[]]}),
+    "adv_block_deep_field": lambda r: J({"command": "advanceBlockchain", "version": 5,
+                                         "blocks": [deep_field_header(r).hex()], "brothers": [[]]}),
+    "adv_brother_deep_field": lambda r: J(_adv(r, 1, [0], brothers=[[deep_field_header(r).hex()]])[0]),
+    "anc_block_deep_field": lambda r: J({"command": "updateAncestorBlock", "version": 5,
+                                         "blocks": [deep_field_header(r).hex()]}),
+    "anc_block_deep_field_shallow": lambda r: J({"command": "updateAncestorBlock", "version": 5,
+                                                 "blocks": [deep_field_header(r, 40).hex()]}),
     "adv_block_noncanonical_rlp": lambda r: J({"command": "advanceBlockchain", "version": 5,
                                                "blocks": [noncanonical_rlp(r).hex()], "brothers": [[]]}),
     "adv_block_trailing_bytes": lambda r: J({"command": "advanceBlockchain", "version": 5,
